@@ -2360,6 +2360,7 @@ func (ex *Exec) envHook(what string) {
 
 func (ex *Exec) blocked(what string) {
 	if cb, ok := ex.st["onblocked"].(Value); ok && cb != nil && ex.envDepth == 0 {
+		ex.st["blocked_reason"] = what
 		ex.envDepth++
 		_, pan := ex.callAny(cb, nil, nil)
 		ex.envDepth--
